@@ -75,7 +75,8 @@ def run_zygotes(histories, hashseed, procs=16):
     chunks = [list(range(i, len(histories), procs)) for i in range(procs)]
     env = dict(os.environ, PYTHONHASHSEED=hashseed, OPENBLAS_NUM_THREADS="1", OMP_NUM_THREADS="1", MKL_NUM_THREADS="1",
                PYTHONDONTWRITEBYTECODE="1")
-    env.pop("PYTHONPATH", None)
+    # PYTHONPATH is inherited on purpose: a scratch tree placed in front of /repo (mutation self-test) must be
+    # the one the child processes import as well.
 
     def one(idx):
         inp = "".join(json.dumps(histories[i]) + "\n" for i in idx)
